@@ -12,8 +12,10 @@ CONSTANTS Species,      \* species ranks mentioned by the files
 
 Labels == Species \cup {Unknown}
 
-\* the parsed file: lists of [id, sp] (sp = tuple of species)
-Docs == {
+\* the parsed files: lists of [id, sp] (sp = tuple of species).  An explicit SEQUENCE: the replay and the trace validation
+\* refer to a file by its index, and the order in which TLC enumerates a set of records is not the same in every module
+\* that extends this one (it follows the order in which strings were first seen)
+DocSeq == <<
   [pair  |-> << [id |-> 1, sp |-> <<1, 1>>], [id |-> 2, sp |-> <<2, 1>>], [id |-> 3, sp |-> <<2, 3>>], [id |-> 4, sp |-> <<3, 3>>] >>,
    embed |-> << [id |-> 5, sp |-> <<2>>], [id |-> 6, sp |-> <<1>>], [id |-> 7, sp |-> <<3>>] >>,
    dens  |-> << [id |-> 8, sp |-> <<1>>], [id |-> 9, sp |-> <<3>>], [id |-> 10, sp |-> <<2>>] >>,
@@ -28,7 +30,8 @@ Docs == {
   [pair  |-> << [id |-> 21, sp |-> <<3, 2>>], [id |-> 22, sp |-> <<3, 3>>], [id |-> 23, sp |-> <<2, 2>>] >>,
    embed |-> << [id |-> 25, sp |-> <<3>>], [id |-> 26, sp |-> <<2>>] >>,
    dens  |-> << [id |-> 28, sp |-> <<2>>], [id |-> 29, sp |-> <<1>>], [id |-> 30, sp |-> <<3>>] >>,
-   fs    |-> FALSE] }
+   fs    |-> FALSE] >>
+Docs == {DocSeq[i] : i \in 1..Len(DocSeq)}
 
 ViewSpace == [mode : {"include", "exclude"}, S : SUBSET Labels]
 Lists == {"pair", "embed", "dens"}
@@ -41,5 +44,4 @@ Filter(lst, v) == SelectSeq(lst, LAMBDA e : Keeps(v, e))
 \* deleting the unwanted entries from the file
 DeleteMentioning(d, v) == [pair |-> Filter(d.pair, v), embed |-> Filter(d.embed, v), dens |-> Filter(d.dens, v), fs |-> d.fs]
 
-DocSeq == SetToSeq(Docs)
 =============================================================================
